@@ -102,3 +102,51 @@ Definition ww_override (w : wwtw) (p : wparams) (tank_cap : Q) : wwtw :=
        (mkT tank_cap (t_sto t) (t_sto_ t) (t_dec t) (t_decayed t) (t_res t)) (ww_outs w).
 
 End Wwtw.
+
+(* ---------------- FWTW ---------------- *)
+Section Fwtw.
+Variable S : Type.
+Variable P : port S.
+Variable maxiter : nat.
+
+Record fwtw := mkFW {
+  fw_p : wparams;
+  fw_cur : vqip; fw_treated : vqip; fw_liquor : vqip; fw_solids : vqip;
+  fw_deficit : vqip; fw_pulled : vqip; fw_prev_pulled : vqip; fw_unpushed : vqip;
+  fw_tank : tank;            (* service reservoir *)
+  fw_ins : star S; fw_outs : star S
+}.
+
+(* treat_water: fill the service reservoir as far as throughput allows; what cannot be pulled is made up ("deficit",
+   with the quality of what was supplied in the previous timestep); liquor and solids go to sewers *)
+Definition fw_treat_water (f : fwtw) : option fwtw :=
+  let target := Qmin (vol (t_get_excess (fw_tank f) None)) (w_cap (fw_p f)) in
+  match pull_distributed S P maxiter None (fw_ins f) target with
+  | None => None
+  | Some (ins', throughput, _) =>
+      let deficit := vchange (fw_prev_pulled f) (Qmax (target - vol throughput) 0) in
+      let cur := vsum throughput deficit in
+      let '(treated', liquor', solids') := w_treat (fw_p f) cur (fw_treated f) (fw_liquor f) in
+      match push_distributed S P maxiter (Some [T_SEWER]) (fw_outs f) (vsum liquor' solids') with
+      | None => None
+      | Some (outs', rejected, _) =>
+          let '(t1, excess) := t_push (fw_tank f) treated' false in
+          let '(t2, _) := t_push t1 excess true in
+          Some (mkFW (fw_p f) cur treated' liquor' solids' (vsum (fw_deficit f) deficit) (fw_pulled f) (fw_prev_pulled f)
+                     (vsum (fw_unpushed f) rejected) t2 ins' outs')
+      end
+  end.
+Definition fw_pull_check (f : fwtw) (ov : option Q) : vqip := t_get_avail (fw_tank f) ov.
+Definition fw_pull_set (f : fwtw) (q : Q) : fwtw * vqip :=
+  let '(t', pulled) := t_pull (fw_tank f) q in
+  (mkFW (fw_p f) (fw_cur f) (fw_treated f) (fw_liquor f) (fw_solids f) (fw_deficit f) (vsum (fw_pulled f) pulled)
+        (fw_prev_pulled f) (fw_unpushed f) t' (fw_ins f) (fw_outs f), pulled).
+Definition fw_end (f : fwtw) (T : Q) : fwtw :=
+  mkFW (fw_p f) (fw_cur f) vzero (fw_liquor f) (fw_solids f) vzero vzero (fw_pulled f) vzero (t_end (fw_tank f) T)
+       (fw_ins f) (fw_outs f).
+Definition fw_override (f : fwtw) (p : wparams) (tank_cap : Q) : fwtw :=
+  let t := fw_tank f in
+  mkFW p (fw_cur f) (fw_treated f) (fw_liquor f) (fw_solids f) (fw_deficit f) (fw_pulled f) (fw_prev_pulled f) (fw_unpushed f)
+       (mkT tank_cap (t_sto t) (t_sto_ t) (t_dec t) (t_decayed t) (t_res t)) (fw_ins f) (fw_outs f).
+
+End Fwtw.
